@@ -175,6 +175,16 @@ def evaluate(ctx, sc):
             for k, v in exp.items():
                 if tr.get(k) != v:
                     viol("text-report", f"text report {k}={tr.get(k)}, JSON says {v}", key=k)
+            if sc.paired:
+                # the per-read lines below a figure name the read they belong to
+                for k, j1, j2 in (("total_bp", "input_read1", "input_read2"), ("quality_trimmed", "quality_trimmed_read1", "quality_trimmed_read2"),
+                                  ("poly_a_trimmed", "poly_a_trimmed_read1", "poly_a_trimmed_read2"), ("written_bp", "output_read1", "output_read2")):
+                    if k not in tr:
+                        continue
+                    want_lines = {i: bp[j] for i, j in ((1, j1), (2, j2)) if bp.get(j) is not None}
+                    if tr.get("_per_read:" + k) != want_lines:
+                        viol("text-report", f"text report lines below {k}: {tr.get('_per_read:' + k)}, JSON says {want_lines}", key=k + "/per-read")
+                ctx.count("text_reports_with_per_read_lines")
             fate_total = sum(int(v.replace(",", "")) for _, v in tr["_fate_lines"])
             # fate lines = all filter categories + 'written'
             if tr["_fate_lines"] and fate_total != rc["input"]:
